@@ -260,7 +260,7 @@ def validate(ctx, name, doc):
 def run(ctx):
     thorough = ctx.tier == 'thorough'
     tlc.sany(SPEC)
-    names = list(L.CATALOGUE) if thorough else ['G2', 'Gpart', 'Gpartul', 'Gneg', 'Grect', 'G15', 'Gcust', 'Gunal', 'G1']
+    names = list(L.CATALOGUE) if thorough else ['G2', 'Gpart', 'Gpartul', 'Gneg', 'Grect', 'Grectul', 'G15', 'Gcust', 'Gunal', 'G1']
     n_cases = 900 if thorough else 300
     total = 0
     for name in names:
